@@ -33,6 +33,7 @@ InitW(cap) ==
     exp     |-> <<>>,      \* expected events, in kernel order
     eh      |-> 0,         \* number of entries of exp already consumed
     mq      |-> <<>>,      \* indices (ascending) of the pending mandatory entries of exp
+    bag     |-> <<>>,      \* expected events of operations made concurrently by several threads (order unknown)
     skipped |-> <<>>,      \* mandatory entries that were passed over (lost unless they show up later = reordered)
     last    |-> NoRec,     \* last record queued for this instance (kernel tail merge)
     ck      |-> EmptyFn,   \* rename cookie -> name of the Rename event
@@ -102,7 +103,7 @@ ParentState(ws, p) ==
   IF S = {} THEN "none"
   ELSE IF \E i \in S : ws.uw[i].st = "live" THEN "live" ELSE "other"
 
-ApplyRec(ws, r, s, maxq) ==
+ApplyRec(ws, r, s, maxq, unordered) ==
   IF ws.phase # "open" \/ r.ino \notin DOMAIN ws.uw THEN ws
   ELSE
   LET e     == ws.uw[r.ino]
@@ -123,6 +124,7 @@ ApplyRec(ws, r, s, maxq) ==
       queued== vis # 0 \/ ign
       \* an ended watch reports nothing further: records queued behind its end record yield no expectation
       w1 == IF op = 0 \/ (mself /\ e.rec) \/ e.st = "ending" THEN ws
+            ELSE IF unordered THEN [ws EXCEPT !.bag = Append(@, ent)]      \* made by concurrent threads: the kernel order is not known
             ELSE [ws EXCEPT !.exp = Append(@, ent), !.room = IF certain THEN @ - 1 ELSE @,
                             !.mq = IF ent.min = 1 THEN Append(@, Len(ws.exp) + 1) ELSE @]
       w2 == IF HasBit(vis, IN_MOVED_FROM) /\ r.ck # 0
@@ -218,6 +220,14 @@ RecvEv(ws0, v) ==
       C   == IF C0 # {} THEN C0 ELSE Cands(ws, v, TRUE)   \* a suppressed entry only as last resort
   IN
   IF C # {} THEN {Consume(IF Cardinality(C) > 1 THEN Note(ws, "ambiguous_match") ELSE ws, v, j) : j \in C}
+  ELSE IF \E q \in 1..Len(ws.bag) : Match(ws.bag[q], v) THEN
+       LET q == SelectInSeq(ws.bag, LAMBDA x : Match(x, v) /\ x.from = v.from)
+           q2 == IF q # 0 THEN q ELSE SelectInSeq(ws.bag, LAMBDA x : Match(x, v))
+           x == ws.bag[q2]
+           w1 == Note([ws EXCEPT !.bag = SubSeq(@, 1, q2 - 1) \o SubSeq(@, q2 + 1, Len(@))], "concurrent_ops")
+       IN {IF v.from # <<>> /\ v.from # x.from THEN Bad(w1, {"C11"}, "renamed_from_wrong")
+           ELSE IF v.from = <<>> /\ x.from # <<>> THEN Bad(w1, {"C11"}, "renamed_from_missing")
+           ELSE IF x.from # <<>> THEN Note(w1, "rename_pair") ELSE w1}
   ELSE
      LET sk == {q \in 1..Len(ws.skipped) : Match(ws.skipped[q], v)} IN
      IF sk # {} THEN
@@ -256,7 +266,7 @@ RecvVal(ws, ch, v) ==
 Settle(ws) ==
   LET rest  == SubSeq(ws.exp, ws.eh + 1, Len(ws.exp))
       lostR == SelectSeq(rest, LAMBDA x : x.min = 1)
-      lost  == ws.skipped \o lostR
+      lost  == ws.skipped \o lostR \o SelectSeq(ws.bag, LAMBDA x : x.min = 1)
       drop  == ws.dropped \/ (\E k \in 1..Len(rest) : rest[k].ovf)
       w1 == IF lost # <<>> /\ ~ws.fog /\ ws.phase = "open"
             THEN Bad(ws, {"C01"} \cup (IF lost[1].ino \in DOMAIN ws.uw /\ (ws.uw[lost[1].ino].st # "live" \/ ws.uw[lost[1].ino].path \in ws.readded)
@@ -266,7 +276,7 @@ Settle(ws) ==
       w2 == IF drop /\ ws.gotOvf = 0 /\ ws.phase = "open" /\ ~ws.fog
             THEN Bad(w1, {"C01", "C10"}, "overflow_not_reported") ELSE w1
       G  == {i \in DOMAIN ws.uw : ws.uw[i].st = "ending"}
-  IN [w2 EXCEPT !.exp = <<>>, !.eh = 0, !.mq = <<>>, !.skipped = <<>>, !.last = NoRec, !.nq = 0, !.ovf = FALSE,
+  IN [w2 EXCEPT !.exp = <<>>, !.eh = 0, !.mq = <<>>, !.bag = <<>>, !.skipped = <<>>, !.last = NoRec, !.nq = 0, !.ovf = FALSE,
                 !.dropped = FALSE, !.gotOvf = 0, !.uw = Without(@, G), !.flags = {}, !.seenCk = {}, !.ovfFion = -1, !.room = 0]
 
 ---------------------------------------------------------------------------
@@ -346,7 +356,8 @@ ObsIdle(o) == o.rd = "IO wait" /\ o.fion = 0 /\ o.len = 0
 
 \* While an overflow is possible, the observed size of the kernel queue bounds how much room it has again:
 \* a record is at most 272 bytes, so a queue that shrank by b bytes has at least b / 272 free slots.
-ObsRoom(ws, o) ==
+ObsRoom(ws0, o) ==
+  LET ws == IF o.fion = 0 THEN [ws0 EXCEPT !.last = NoRec] ELSE ws0 IN   \* queue empty: the next record cannot be merged
   IF ~ws.ovf THEN ws
   ELSE IF ws.ovfFion = -1 THEN [ws EXCEPT !.ovfFion = o.fion]
   ELSE LET r == ((ws.ovfFion - o.fion) \div 272) - 2 IN
